@@ -24,6 +24,10 @@ REPO = os.environ.get("VERIF_REPO", "/repo")
 SPEC = os.path.join(VERIF, "spec")
 HARNESS = os.path.join(VERIF, "harness")
 BIN = os.path.join(VERIF, "bin")
+# When VERIF_REPO points at a scratch worktree (mutant testing), nothing under /verif is written:
+# the harness is copied, binaries/evidence/replays go to OUT.
+ALT = os.path.realpath(REPO) != "/repo"
+OUT = os.environ.get("VERIF_OUT") or (os.path.join("/tmp", "verif-out-" + hashlib.sha1(REPO.encode()).hexdigest()[:8]) if ALT else VERIF)
 TLA_CP = "/opt/veriftools/tla/tla2tools.jar:/opt/veriftools/tla/CommunityModules-deps.jar"
 NCPU = os.cpu_count() or 4
 
@@ -100,7 +104,7 @@ class Ctx:
                 if not any(k[0] == f["signature"] for k in self.known):
                     self.known.append((f["signature"], f.get("what", text)))
                 return
-        d = os.path.join(VERIF, "replays", self.prop)
+        d = os.path.join(OUT, "replays", self.prop)
         os.makedirs(d, exist_ok=True)
         body = json.dumps({"property": self.prop, "signature": signature, "text": text, "seed": self.seed,
                            "tier": self.tier, "replay": replay_obj}, indent=1, default=str)
@@ -120,8 +124,8 @@ class Ctx:
             "wall_s": round(time.time() - self.t0, 2), "violations": len(self.violations),
             "known_findings": [k[0] for k in self.known],
         }
-        os.makedirs(os.path.join(VERIF, "evidence"), exist_ok=True)
-        with open(os.path.join(VERIF, "evidence", self.prop + ".json"), "w") as f:
+        os.makedirs(os.path.join(OUT, "evidence"), exist_ok=True)
+        with open(os.path.join(OUT, "evidence", self.prop + ".json"), "w") as f:
             json.dump(ev, f, indent=1, default=str)
         for sig, what in self.known:
             print("KNOWN-FINDING: property=%s %s -- %s" % (self.prop, sig, what))
@@ -165,26 +169,35 @@ def go_env():
 
 
 def ensure_harness_module():
-    """(re)write go.mod/go.sum of the harness so that it always builds against REPO's working tree."""
-    gomod = os.path.join(HARNESS, "go.mod")
+    """go.mod/go.sum of the harness so that it always builds against REPO's working tree. For an
+    alternative REPO the harness is copied to OUT/harness (so /verif/harness is never rewritten)."""
+    hdir = HARNESS
+    if ALT:
+        hdir = os.path.join(OUT, "harness")
+        if os.path.exists(hdir):
+            shutil.rmtree(hdir)
+        shutil.copytree(HARNESS, hdir)
+    gomod = os.path.join(hdir, "go.mod")
     want_replace = "replace github.com/NVIDIA/KAI-scheduler => %s" % REPO
     txt = open(gomod).read()
     new = re.sub(r"replace github.com/NVIDIA/KAI-scheduler => \S+", want_replace, txt)
     if new != txt:
         open(gomod, "w").write(new)
     src = os.path.join(REPO, "go.sum")
-    dst = os.path.join(HARNESS, "go.sum")
+    dst = os.path.join(hdir, "go.sum")
     if not os.path.exists(dst) or open(src, "rb").read() != open(dst, "rb").read():
         shutil.copyfile(src, dst)
+    return hdir
 
 
 def go_build(cmd, timeout=1500):
-    """build harness/cmd/<cmd> against the current /repo tree with -tags verif; returns binary path."""
-    ensure_harness_module()
-    os.makedirs(BIN, exist_ok=True)
-    out = os.path.join(BIN, cmd)
+    """build harness/cmd/<cmd> against the current REPO tree with -tags verif; returns binary path."""
+    hdir = ensure_harness_module()
+    bindir = os.path.join(OUT, "bin")
+    os.makedirs(bindir, exist_ok=True)
+    out = os.path.join(bindir, cmd)
     t = time.time()
-    p = subprocess.run(["go", "build", "-tags", "verif", "-o", out, "./cmd/" + cmd], cwd=HARNESS, env=go_env(),
+    p = subprocess.run(["go", "build", "-tags", "verif", "-o", out, "./cmd/" + cmd], cwd=hdir, env=go_env(),
                        stdout=subprocess.PIPE, stderr=subprocess.STDOUT, text=True, timeout=timeout)
     if p.returncode != 0:
         raise Infra("go build %s failed:\n%s" % (cmd, p.stdout[-4000:]))
